@@ -68,10 +68,12 @@ class C07(Prop):
             for to in (False, True):
                 for named in (False, True):
                     for stub in ((False, True) if f == 'none' else (False,)):
-                        sc = {'batches': [[{'uid': 1, 'fault': f, 'timeout': to, 'stubborn': stub}]],
-                              'cancels': [[1]] if named else [], 'exit_codes': {'1': 3}}
-                        for _ in range(2 if tier == 'quick' else 12):
-                            yield dict(sc, sched=gen_sched(rng, sc, rng.randint(4, 40)))
+                        for soe in (False, True):       # description.stage_on_error
+                            sc = {'batches': [[{'uid': 1, 'fault': f, 'timeout': to, 'stubborn': stub,
+                                                'stage_on_error': soe, 'startup': soe and to}]],
+                                  'cancels': [[1]] if named else [], 'exit_codes': {'1': 3}}
+                            for _ in range(1 if tier == 'quick' else 6):
+                                yield dict(sc, sched=gen_sched(rng, sc, rng.randint(4, 40)))
         # a process that outlives the kill: the canceling thread (C, T, or the late check in I) sits in proc.wait()
         for who in ('C', 'T', 'I'):
             sc = {'batches': [[{'uid': 1, 'fault': 'none', 'timeout': who == 'T', 'stubborn': True},
@@ -85,6 +87,12 @@ class C07(Prop):
         for c in X.exit_before_poll_cases(rng):
             yield c
         for c in X.bulk_cancel_cases(rng, 4 if tier == 'quick' else 30):
+            yield c
+        # very long cancel requests which also name a task the executor meets later
+        for c in X.scale_cancel_cases(rng, [1100] if tier == 'quick' else [1025, 1500, 2200, 3000]):
+            yield c
+        for c in X.scale_cancel_cases(rng, [1300] if tier == 'quick' else [1300, 2600], split=True,
+                                      positions=('first',) if tier == 'quick' else ('first', 'middle')):
             yield c
         # the bulk limit of the watcher (MAX_QUEUE_BULKSIZE = 100): more than a full bulk waits in the watch queue
         for nbig in ((101,) if tier == 'quick' else (100, 101, 107, 113, 120, 130, 205)):
@@ -210,6 +218,26 @@ class C07(Prop):
         s = case['sched']
         n = len(s)
         nt = len(delivered(case))
+        nc = sum(len(m) for m in case.get('cancels', []))
+        if nc > 200:
+            # a very long cancel request: few, expensive candidates -- drop a delivered task, drop part of the uids
+            # that name nothing the executor sees, cut the schedule
+            dl = set(delivered(case))
+            if nt > 1:
+                for u in delivered(case):
+                    yield dict(case, batches=[b2 for b2 in ([t for t in b if t['uid'] != u] for b in case['batches']) if b2],
+                               sched=[c for c in s if not (isinstance(c, list) and c[1] == u)])
+            for frac in (2, 10):
+                cut = []
+                for m in case['cancels']:
+                    fill = [v for v in m if v not in dl]
+                    drop = set(fill[-(len(fill) // frac):]) if len(fill) >= frac else set()
+                    cut.append([v for v in m if v not in drop])
+                yield dict(case, cancels=cut)
+            for keep in (0, 1, 2, n // 2, n - n // 8):
+                if keep < n:
+                    yield dict(case, sched=s[:keep])
+            return
         if nt > 20:
             # a big batch: cut it from the end (few, expensive candidates)
             for keep in (nt // 2, nt - 10, nt - 1):
